@@ -75,6 +75,7 @@ def make_spec(rng, idx=0):
         spec["basetypes"].append({"name": name, "code": code, "folder": name.upper() + "S", "levels": levels, "groups": [], "short": True})
     spec["aliases"] = {"cache": ["abc", "vdb", "fur", "json"], "movie": ["mp4", "mov", "avi"]}
     spec["third_path_config"] = rng.random() < 0.7
+    spec["default_not_first"] = rng.random() < 0.5
     # documented usage: intermediate types extrapolated from a LEAF type (its name suffix is not its last key)
     spec["extrapolate_from_leaf"] = rng.random() < 0.5
     return spec
@@ -229,6 +230,8 @@ def write_package(spec, directory):
     fs_conf("spil_fs_conf.py", "LOCAL")
     fs_conf("spil_fs_server_conf.py", "SERVER")
     configs = {"local": "spil_fs_conf", "server": "spil_fs_server_conf"}
+    if spec.get("default_not_first"):      # the default path configuration is NAMED, not "the first one"
+        configs = {"server": "spil_fs_server_conf", "local": "spil_fs_conf"}
     if spec["third_path_config"]:
         fs_conf("spil_fs_cloud_conf.py", "CLOUD", mapping_alt, fs_kp_alt)
         configs["cloud"] = "spil_fs_cloud_conf"
